@@ -18,7 +18,7 @@ RULE = ("worlds as C07 but estimator and uninterrupted charging off, unequal vol
         "inconclusive; non-trivial = call with >=2 constraints binding and >=3 active sessions; distinct = history signature")
 PROBES = ["greedy_call_checked", "rr_call_checked", "uncontrolled_call_checked", "tie_inconclusive", "guard_inconclusive",
           "bisection_used", "ub_granted", "finite_level_lowered", "two_constraints_binding", "eps_probe", "order_matters",
-          "rr_blocked_session", "call_after_reconfig", "uninterrupted_call", "min_pilot_refused", "direct_schedule_call_shared_bounds", "near_tie_world", "estimator_call"]
+          "rr_blocked_session", "call_after_reconfig", "uninterrupted_call", "min_pilot_refused", "direct_schedule_call_shared_bounds", "direct_schedule_call_edited_energy", "near_tie_world", "estimator_call"]
 FAULT_DIMENSION = ("environment fault only: the operator changes a constraint limit between two periods of the run "
                    "(ChargingNetwork.update_constraint); otherwise reached-state distribution")
 ASSUMPTIONS = ["priority keys pairwise distinct (else the call is inconclusive)",
@@ -176,6 +176,28 @@ def check(sc):
                 if a_ != b_:
                     pre.add("C08/direct_call_differs", "t=%d: schedule() on caller-built sessions (max_rates = views of one shared buffer of 1000 A) "
                             "gives %s, the run's own call gave %s" % (rec["t"], a_, b_))
+                # the caller edits the energy fields of the sessions it hands over (a demand-response cap, a what-if study) and keeps
+                # the live session ids: each session's own bound is the one of the session object *passed in*
+                if p.get("uninterrupted") or pre.viol:
+                    return
+                granted = [s_ for s_ in mine if float(sched.get(s_.station_id, [0])[0]) > 1e-6]
+                if not granted:
+                    return
+                vict = granted[r_.randrange(len(granted))]
+                rate_v = float(sched[vict.station_id][0])
+                volt = next(float(st_["voltage"]) for st_ in sc["network"]["stations"] if st_["id"] == vict.station_id)
+                cap_ap = rate_v / 2.0                                            # new remaining demand, in amp-periods
+                cap_kwh = cap_ap * volt / 1000.0 * sc["sim"]["period"] / 60.0
+                edited = [sut.SessionInfo(s_.station_id, s_.session_id,
+                                          (s_.energy_delivered + cap_kwh) if s_ is vict else s_.requested_energy, s_.energy_delivered,
+                                          s_.arrival, s_.departure, s_.estimated_departure, s_.current_time, min_rates=0,
+                                          max_rates=np.full(s_.remaining_time, 1000.0)) for s_ in mine]
+                third = party_.inner.schedule(edited)
+                pre.probe("direct_schedule_call_edited_energy")
+                got_v = float(third.get(vict.station_id, [0.0])[0])
+                if got_v > cap_ap * (1 + 1e-6) + 1e-6:
+                    pre.add("C08/edited_session_bound_ignored", "t=%d: schedule() on sessions whose energy fields the caller edited (session %s: remaining "
+                            "demand set to %r A*periods, live ids kept) grants it %r A" % (rec["t"], vict.session_id, cap_ap, got_v))
             ctx.post_hooks.append(direct)
         if kind != "greedy":
             return
